@@ -1,6 +1,7 @@
 (** C08 — task requests: one effective answer, declared results stored, error modes kept.
     Model: Model/TaskAnswer.v (Do/process protocol, declared-only filtering, error-mode switch). *)
 From BV Require Import Model.TaskAnswer Proofs.TaskAnswerProofs.
+From BV Require Import Model.TokenNumbers Proofs.TokenNumbersProofs.
 Open Scope nat_scope.
 
 (* FIRST WINS — for every number of callers and every interleaving of their done-checks and sends
@@ -81,3 +82,15 @@ Example C08_nonvacuous :
   token 0 [AErrRetry 2; AErrRetry 2; AErrRetry 2; AOk] = (3%nat, 3%nat, Ended) /\
   got (drun false [Chk 0; Chk 1; Chk 2; Snd 1; Rcv; Snd 0; Snd 2; Cls; Chk 3]) = Some 1%nat.
 Proof. vm_compute. repeat split. Qed.
+
+(* EACH ANSWER FINDS ITS OWN TOKEN (Model/TokenNumbers.v: the numbers the harness gives the tokens inside an activity):
+   whatever the order in which tokens enter and leave, the tokens inside carry pairwise different numbers *)
+Theorem C08_tokens_inside_have_distinct_numbers : forall p, NoDup (inside_ (hrun true p)).
+Proof. exact numbers_distinct. Qed.
+Print Assumptions C08_tokens_inside_have_distinct_numbers.
+(* numbered by the count of tokens inside (a seeded change): two inside, the older leaves, a third enters — two tokens
+   share a number, one answer goes to the wrong token and the other is lost *)
+Theorem C08_distinct_numbers_refuted_when_numbered_by_count :
+  inside_ (hrun false [HEnter; HEnter; HLeave 0%nat; HEnter]) = [2; 2]%nat /\ inside_ (hrun true [HEnter; HEnter; HLeave 0%nat; HEnter]) = [2; 3]%nat.
+Proof. exact refuted_numbered_by_count. Qed.
+Print Assumptions C08_distinct_numbers_refuted_when_numbered_by_count.
